@@ -140,22 +140,52 @@ class Run:
 
         def mk2(spec):
             return logged(catalogue.make_fn2(spec))
+
+        # node(func, *args, **kwargs) calls func(x, *args, **kwargs): the same function handed over in the three documented ways
+        form = nd.get("call_form", "plain")
+
+        def with_form(fn, arity=1, allow_args=True):
+            if form == "args" and allow_args:
+                def g(*a):
+                    if len(a) != arity + 1 or a[-1] != "extra":
+                        raise AssertionError("the extra positional argument did not reach the user function: %r" % (a[arity:],))
+                    return fn(*a[:arity])
+                return g, ("extra",), {}
+            if form in ("kwargs", "args"):
+                def h(*a, **kw):
+                    if len(a) != arity or kw != {"tag": "extra"}:
+                        raise AssertionError("the extra keyword argument did not reach the user function: %r %r" % (a[arity:], kw))
+                    return fn(*a)
+                return h, (), {"tag": "extra"}
+            return fn, (), {}
         if k == "source":
             return Stream(asynchronous=True) if asyn else Stream()
         if k == "union":
             return ups[0].union(*ups[1:])
         if k == "map":
-            return ups[0].map(mk(nd["f"]))
+            fn, a, kw = with_form(mk(nd["f"]))
+            return ups[0].map(fn, *a, **kw)
         if k == "starmap":
-            return ups[0].starmap(logged(catalogue.starmap_twin(nd["f"])))
+            twin = logged(catalogue.starmap_twin(nd["f"]))
+            if form in ("args", "kwargs"):
+                def sm(*a, **kw):
+                    if kw != {"tag": "extra"}:
+                        raise AssertionError("the extra keyword argument did not reach the user function: %r" % (kw,))
+                    return twin(*a)
+                return ups[0].starmap(sm, tag="extra")
+            return ups[0].starmap(twin)
         if k == "filter":
-            return ups[0].filter(mk(nd["f"]))
+            if form == "none" and nd["f"] == ["truthy"]:
+                return ups[0].filter(None)          # the documented default predicate: keep what is truthy
+            fn, a, kw = with_form(mk(nd["f"]))
+            return ups[0].filter(fn, *a, **kw)
         if k == "accumulate":
             kw = {}
             if nd.get("has_start"):
                 kw["start"] = decanon(nd["start"])
-            return ups[0].accumulate(mk2(nd["f"]), returns_state=nd.get("returns_state", False),
-                                     with_state=nd.get("with_state", False), **kw)
+            fn, _a, kw2 = with_form(mk2(nd["f"]), arity=2, allow_args=False)
+            return ups[0].accumulate(fn, returns_state=nd.get("returns_state", False),
+                                     with_state=nd.get("with_state", False), **kw, **kw2)
         if k == "slice":
             return ups[0].slice(nd.get("start"), nd.get("end"), nd.get("step"))
         if k == "partition":
@@ -204,7 +234,20 @@ class Run:
         if k == "rate_limit":
             return ups[0].rate_limit(nd["interval"])
         if k == "map_async":
-            return ups[0].map_async(self._async_fn(nd, me), parallelism=nd.get("parallelism", 1))
+            job = self._async_fn(nd, me)
+            if form == "args":
+                async def job_a(x, tag):
+                    if tag != "extra":
+                        raise AssertionError("the extra positional argument did not reach the mapped coroutine")
+                    return await job(x)
+                return ups[0].map_async(job_a, "extra", parallelism=nd.get("parallelism", 1))
+            if form == "kwargs":
+                async def job_k(x, tag=None):
+                    if tag != "extra":
+                        raise AssertionError("the extra keyword argument did not reach the mapped coroutine")
+                    return await job(x)
+                return ups[0].map_async(job_k, parallelism=nd.get("parallelism", 1), tag="extra")
+            return ups[0].map_async(job, parallelism=nd.get("parallelism", 1))
         if k == "timed_window":
             return ups[0].timed_window(nd["interval"])
         if k == "timed_window_unique":
@@ -219,7 +262,8 @@ class Run:
         if k == "sink":
             if nd.get("mode") == "async":
                 return ups[0].sink(self._consumer(prefail=nd.get("prefail")))
-            return ups[0].sink(mk(nd["f"]))
+            fn, a, kw = with_form(mk(nd["f"]))
+            return ups[0].sink(fn, *a, **kw)
         raise KeyError(k)
 
     def _async_fn(self, nd, me):
